@@ -469,4 +469,20 @@ theorem C09_wiring2 :
     Sso.Generated.skel_okta_ValidateSessionState =
       ["if{", "return", "}", "call:Add", "call:Add", "call:Add", "call:Add", "call:String", "call:oktaRequest", "if{", "return", "}", "if{", "return", "}", "return"] := by decide
 
+/-- Tie (T1): the decoder tags of sso-auth's configuration structs (`internal/auth/configuration.go`) — the names under which the environment and the files reach each setting this
+property depends on (TTLs, cookie flags, client credentials, root domains, allow rules …). A tag that changes re-routes or drops a
+setting without any code noticing. -/
+theorem C09_tags_authConfigTags : Sso.Generated.authConfigTags =
+    ["Configuration.ProviderConfigs mapstructure:\"provider\"", "Configuration.ClientConfigs mapstructure:\"client\"", "Configuration.GroupCacheConfig mapstructure:\"groupcache\"", "Configuration.AuthorizeConfig mapstructure:\"authorize\"", "Configuration.SessionConfig mapstructure:\"session\"", "Configuration.ServerConfig mapstructure:\"server\"", "Configuration.MetricsConfig mapstructure:\"metrics\"", "Configuration.LoggingConfig mapstructure:\"logging\"", "ProviderConfig.ProviderType mapstructure:\"type\"", "ProviderConfig.ProviderSlug mapstructure:\"slug\"", "ProviderConfig.ClientConfig mapstructure:\"client\"", "ProviderConfig.Scope mapstructure:\"scope\"", "ProviderConfig.GoogleProviderConfig mapstructure:\"google\"", "ProviderConfig.OktaProviderConfig mapstructure:\"okta\"", "ProviderConfig.AmazonCognitoProviderConfig mapstructure:\"cognito\"", "ProviderConfig.GroupCacheConfig mapstructure:\"groupcache\"", "GoogleProviderConfig.Credentials mapstructure:\"credentials\"", "GoogleProviderConfig.Impersonate mapstructure:\"impersonate\"", "GoogleProviderConfig.ApprovalPrompt mapstructure:\"prompt\"", "GoogleProviderConfig.HostedDomain mapstructure:\"domain\"", "OktaProviderConfig.ServerID mapstructure:\"server\"", "OktaProviderConfig.OrgURL mapstructure:\"url\"", "AmazonCognitoProviderConfig.OrgURL mapstructure:\"url\"", "AmazonCognitoProviderConfig.UserPoolID mapstructure:\"id\"", "AmazonCognitoProviderConfig.Region mapstructure:\"region\"", "AmazonCognitoProviderConfig.Credentials mapstructure:\"credentials\"", "CognitoCredentials.ID mapstructure:\"id\"", "CognitoCredentials.Secret mapstructure:\"secret\"", "GroupCacheConfig.CacheIntervalConfig mapstructure:\"interval\"", "CacheIntervalConfig.Provider mapstructure:\"provider\"", "CacheIntervalConfig.Refresh mapstructure:\"refresh\"", "SessionConfig.CookieConfig mapstructure:\"cookie\"", "SessionConfig.SessionLifetimeTTL mapstructure:\"lifetime\"", "SessionConfig.Key mapstructure:\"key\"", "CookieConfig.Name mapstructure:\"name\"", "CookieConfig.Secret mapstructure:\"secret\"", "CookieConfig.Domain mapstructure:\"domain\"", "CookieConfig.Expire mapstructure:\"expire\"", "CookieConfig.Secure mapstructure:\"secure\"", "CookieConfig.HTTPOnly mapstructure:\"httponly\"", "ServerConfig.Host mapstructure:\"host\"", "ServerConfig.Port mapstructure:\"port\"", "ServerConfig.Scheme mapstructure:\"scheme\"", "ServerConfig.TimeoutConfig mapstructure:\"timeout\"", "TimeoutConfig.Write mapstructure:\"write\"", "TimeoutConfig.Read mapstructure:\"read\"", "TimeoutConfig.Request mapstructure:\"request\"", "TimeoutConfig.Shutdown mapstructure:\"shutdown\"", "ClientConfig.ID mapstructure:\"id\"", "ClientConfig.Secret mapstructure:\"secret\"", "AuthorizeConfig.EmailConfig mapstructure:\"email\"", "AuthorizeConfig.ProxyConfig mapstructure:\"proxy\"", "EmailConfig.Domains mapstructure:\"domains\"", "EmailConfig.Addresses mapstructure:\"addresses\"", "ProxyConfig.Domains mapstructure:\"domains\"", "MetricsConfig.StatsdConfig mapstructure:\"statsd\"", "LoggingConfig.Enable mapstructure:\"enable\"", "LoggingConfig.Level mapstructure:\"level\"", "StatsdConfig.Port mapstructure:\"port\"", "StatsdConfig.Host mapstructure:\"host\""] := by decide
+
+/-- Tie (T1), third wave: the constructors and option functions that hand configured values to the components this property
+speaks about (auth_SetValidators, auth_NewAuthenticator, auth_getAuthCodeRedirectURL). -/
+theorem C09_wiring3 :
+    Sso.Generated.skel_auth_SetValidators =
+      ["func{", "store:a.Validators", "return", "}", "return"] ∧
+    Sso.Generated.skel_auth_NewAuthenticator =
+      ["call:NewHTMLTemplate", "range{", "call:HasPrefix", "if{", "call:Sprintf", "}", "call:append", "}", "call:newMux", "store:p.ServeMux", "range{", "call:optFunc", "if{", "return", "}", "}", "return"] ∧
+    Sso.Generated.skel_auth_getAuthCodeRedirectURL =
+      ["call:String", "call:Parse", "if{", "return", "}", "call:ParseQuery", "if{", "return", "}", "call:Set", "call:Set", "call:Encode", "store:u.RawQuery", "store:u.Scheme", "call:String", "return"] := by decide
+
 end Sso.AuthN
